@@ -938,6 +938,9 @@ func c05Check(r *vrt.R, sc *c05Scen, in c05In, base map[string]int, st *c05Stats
 		return // rejected by the library: allowed outcome
 	}
 	st.delivered++
+	if sc.isName && strings.Contains(in.s, ":") {
+		st.retokenised++
+	}
 	allowed, allowedTrailer := c05Allowed(sc, in, base)
 	vs, views := c05Judge(o, allowed, allowedTrailer)
 	for i := range views {
@@ -1126,6 +1129,7 @@ func TestVerif_C05(t *testing.T) {
 		tot.crlf += st.crlf
 		tot.writeErr += st.writeErr
 		tot.delivered += st.delivered
+		tot.retokenised += st.retokenised
 		for k := 0; k < 3; k++ {
 			tot.acc[k] += st.acc[k]
 			tot.rej[k] += st.rej[k]
@@ -1135,6 +1139,7 @@ func TestVerif_C05(t *testing.T) {
 	r.Add("args_with_cr_or_lf", tot.crlf)
 	r.Add("library_rejected_on_write", tot.writeErr)
 	r.Add("serialised", tot.delivered)
+	r.Add("names_retokenised", tot.retokenised)
 	for k, p := range []string{"strict", "nethttp", "fasthttp"} {
 		r.Add("peer_"+p+"_parsed", tot.acc[k])
 		r.Add("peer_"+p+"_rejected", tot.rej[k])
